@@ -341,7 +341,7 @@ def generate(rng, tier):
     cases.append(make_case(rng, ["any"], {"l": [{"f": "19974.0"}, False]}, modes=["yaml", "jsonnet"], key=["g", "k"]))
     cases.append(make_case(rng, ["set", ["int"]], {"l": [{"i": "3"}, {"i": "1"}]}, key=["items"]))
     cases.append(make_case(rng, ["enum", ["a", "b"]], "a", key=["g", "values"]))
-    n = 300 if tier == "quick" else 1500
+    n = 300 if tier == "quick" else 3000
     # every look-alike string at a str-typed position, and at the scalar types
     for s in LOOKALIKES + WORDS:
         cases.append(make_case(rng, ["str"], s))
